@@ -3,6 +3,7 @@
   ledger/protocol.py `_sign`) against `Spec.C02.judge`, for every JSON object.
 -/
 import PowHsm.Proofs.Classify
+import Batteries.Data.List.Perm
 namespace PowHsm
 namespace Classify
 open Ledger Comm Spec Spec.C02 Generated
@@ -98,6 +99,1020 @@ theorem hexZone_nonempty_not_invalid (j : Json) (okLen : Nat → Bool) (h : none
       cases b with
       | nil => rw [hf] at h; cases h
       | cons x xs => simp
+
+/-! ### an object with exactly these keys has no other -/
+
+theorem lookup_isSome_mem (m : List (String × Json)) (k : String) (h : (Json.lookup m k).isSome = true) :
+    k ∈ m.map (·.1) := by
+  unfold Json.lookup at h
+  cases hf : m.find? (fun p => p.1 == k) with
+  | none => simp [hf] at h
+  | some p =>
+    have hm := List.mem_of_find?_eq_some hf
+    have hk := List.find?_some hf
+    simp only [beq_iff_eq] at hk
+    exact List.mem_map.2 ⟨p, hm, hk⟩
+
+theorem mem_lookup_isSome (m : List (String × Json)) (k : String) (h : k ∈ m.map (·.1)) :
+    (Json.lookup m k).isSome = true := by
+  unfold Json.lookup
+  obtain ⟨p, hp, hk⟩ := List.mem_map.1 h
+  cases hf : m.find? (fun p => p.1 == k) with
+  | some _ => rfl
+  | none =>
+    have := List.find?_eq_none.1 hf p hp
+    simp [hk] at this
+
+/-- pigeonhole: `n` distinct keys found in an object of `n` members are all its keys -/
+theorem keys_exact (m : List (String × Json)) (ks : List String) (hnd : ks.Nodup) (hl : m.length = ks.length)
+    (hall : ∀ k ∈ ks, (Json.lookup m k).isSome = true) (k' : String)
+    (h : (Json.lookup m k').isSome = true) : k' ∈ ks := by
+  have hsub : ks ⊆ m.map (·.1) := fun k hk => lookup_isSome_mem m k (hall k hk)
+  have hperm := (List.subperm_of_subset hnd hsub).perm_of_length_le (by simp [hl])
+  exact hperm.symm.subset (lookup_isSome_mem m k' h)
+
+theorem keysAre_iff (m : List (String × Json)) (ks : List String) :
+    keysAre m ks = true ↔ m.length = ks.length ∧ ∀ k ∈ ks, (Json.lookup m k).isSome = true := by
+  simp [keysAre]
+
+/-! ### zones -/
+
+theorem worst_eq_valid (a b : Zone) : worst a b = .valid ↔ a = .valid ∧ b = .valid := by
+  cases a <;> cases b <;> simp [worst]
+
+theorem worst_ne_invalid (a b : Zone) : worst a b ≠ .invalid ↔ a ≠ .invalid ∧ b ≠ .invalid := by
+  cases a <;> cases b <;> simp [worst]
+
+theorem foldl_worst_valid (zs : List Zone) (a : Zone) :
+    zs.foldl worst a = .valid ↔ a = .valid ∧ ∀ z ∈ zs, z = .valid := by
+  induction zs generalizing a with
+  | nil => simp
+  | cons z zs ih =>
+    simp only [List.foldl_cons, ih, worst_eq_valid, List.mem_cons, forall_eq_or_imp]
+    constructor
+    · rintro ⟨⟨h1, h2⟩, h3⟩; exact ⟨h1, h2, h3⟩
+    · rintro ⟨h1, h2, h3⟩; exact ⟨⟨h1, h2⟩, h3⟩
+
+theorem worstAll_eq_valid (zs : List Zone) : worstAll zs = .valid ↔ ∀ z ∈ zs, z = .valid := by
+  unfold worstAll
+  rw [foldl_worst_valid]
+  simp
+
+theorem foldl_worst_ne_invalid (zs : List Zone) (a : Zone) :
+    zs.foldl worst a ≠ .invalid ↔ a ≠ .invalid ∧ ∀ z ∈ zs, z ≠ .invalid := by
+  induction zs generalizing a with
+  | nil => simp
+  | cons z zs ih =>
+    simp only [List.foldl_cons, ih, worst_ne_invalid, List.mem_cons, forall_eq_or_imp]
+    constructor
+    · rintro ⟨⟨h1, h2⟩, h3⟩; exact ⟨h1, h2, h3⟩
+    · rintro ⟨h1, h2, h3⟩; exact ⟨⟨h1, h2⟩, h3⟩
+
+theorem worstAll_ne_invalid (zs : List Zone) : worstAll zs ≠ .invalid ↔ ∀ z ∈ zs, z ≠ .invalid := by
+  unfold worstAll
+  rw [foldl_worst_ne_invalid]
+  simp
+
+/-! ### auth -/
+
+/-- the zone of an `auth` object's two fields -/
+def authObjZone (a : List (String × Json)) : Zone :=
+  worst (hexZone ((Json.lookup a "receipt").getD .null))
+    (match Json.lookup a "receipt_merkle_proof" with
+     | some (.arr ns) =>
+       if ns.isEmpty then Zone.invalid
+       else worst (worstAll (ns.map fun n => hexZone n (fun l => l ≤ 255)))
+                  (if ns.length ≤ 255 then .valid else .unspec)
+     | _ => .invalid)
+
+/-- the validator's verdict on an `auth` object -/
+def authObjOk (a : List (String × Json)) : Bool :=
+  (match Json.lookup a "receipt" with | some r => nonemptyHexStr r | none => false) &&
+  (match Json.lookup a "receipt_merkle_proof" with
+   | some (.arr nodes) => !nodes.isEmpty && nodes.all nonemptyHexStr
+   | _ => false)
+
+theorem authZone_obj (kvs a : List (String × Json)) (kind : MsgKind) (h : Json.lookup kvs "auth" = some (.obj a)) :
+    authZone kvs kind = if kind == .tx then authObjZone a else worst (authObjZone a) .unspec := by
+  unfold authZone authObjZone
+  simp only [h]
+  cases Json.lookup a "receipt_merkle_proof" with
+  | none => rfl
+  | some v => cases v <;> rfl
+
+theorem validateAuth_obj (c : Codes) (kvs a : List (String × Json)) (mand : Bool)
+    (h : Json.lookup kvs "auth" = some (.obj a)) :
+    validateAuth c kvs mand = if authObjOk a then 0 else c.invalidAuth := by
+  unfold validateAuth authObjOk
+  simp only [h]
+  cases Json.lookup a "receipt" with
+  | none => simp
+  | some r =>
+    simp only
+    by_cases hr : nonemptyHexStr r = true
+    · simp only [hr, Bool.not_true, Bool.false_eq_true, if_false, Bool.true_and]
+      cases Json.lookup a "receipt_merkle_proof" with
+      | none => simp
+      | some v =>
+        cases v with
+        | arr nodes =>
+          simp only []
+          by_cases hn : nodes.isEmpty = true
+          · rw [if_pos hn, if_neg (by simp [hn])]
+          · rw [if_neg hn]
+            by_cases ha : nodes.all nonemptyHexStr = true
+            · rw [if_neg (by simp [ha]), if_pos (by simp [hn, ha])]
+            · rw [if_pos (by simpa using ha), if_neg (by simp [ha])]
+        | _ => simp
+    · simp [hr]
+
+theorem authObj_valid_ok (a : List (String × Json)) (h : authObjZone a = .valid) : authObjOk a = true := by
+  unfold authObjZone at h
+  rw [worst_eq_valid] at h
+  obtain ⟨hr, hp⟩ := h
+  unfold authObjOk
+  have h1 : (match Json.lookup a "receipt" with | some r => nonemptyHexStr r | none => false) = true := by
+    cases hl : Json.lookup a "receipt" with
+    | none => rw [hl] at hr; simp [hexZone] at hr
+    | some r => rw [hl] at hr; exact hexZone_valid_nonempty r _ (by simpa using hr)
+  rw [h1, Bool.true_and]
+  cases hl : Json.lookup a "receipt_merkle_proof" with
+  | none => rw [hl] at hp; cases hp
+  | some v =>
+    rw [hl] at hp
+    cases v <;> simp only at hp <;> try (cases hp; done)
+    rename_i ns
+    simp only
+    cases hn : ns.isEmpty with
+    | true => simp [hn] at hp
+    | false =>
+      simp only [hn, Bool.false_eq_true, if_false, worst_eq_valid, worstAll_eq_valid] at hp
+      simp only [Bool.not_false, Bool.true_and, List.all_eq_true]
+      intro n hmem
+      exact hexZone_valid_nonempty n _ (hp.1 _ (List.mem_map.2 ⟨n, hmem, rfl⟩))
+
+theorem authObj_ok_not_invalid (a : List (String × Json)) (h : authObjOk a = true) : authObjZone a ≠ .invalid := by
+  unfold authObjOk at h
+  simp only [Bool.and_eq_true] at h
+  obtain ⟨hr, hp⟩ := h
+  unfold authObjZone
+  rw [worst_ne_invalid]
+  constructor
+  · cases hl : Json.lookup a "receipt" with
+    | none => rw [hl] at hr; cases hr
+    | some r => rw [hl] at hr; simpa using hexZone_nonempty_not_invalid r _ hr
+  · cases hl : Json.lookup a "receipt_merkle_proof" with
+    | none => rw [hl] at hp; cases hp
+    | some v =>
+      rw [hl] at hp
+      cases v <;> simp only at hp <;> try (cases hp; done)
+      rename_i ns
+      simp only [Bool.and_eq_true, Bool.not_eq_true', List.all_eq_true] at hp
+      simp only [hp.1, Bool.false_eq_true, if_false]
+      rw [worst_ne_invalid, worstAll_ne_invalid]
+      refine ⟨fun z hz => ?_, by split <;> simp⟩
+      obtain ⟨n, hn, rfl⟩ := List.mem_map.1 hz
+      exact hexZone_nonempty_not_invalid n _ (hp.2 n hn)
+
+/-- a refusal by `_validate_auth` names an `auth` the documents do not call valid -/
+theorem auth_refusal (c : Codes) (kvs : List (String × Json)) (mand : Bool) (kind : MsgKind)
+    (h : validateAuth c kvs mand ≠ 0) (hk : mand = true → kind = .tx) :
+    validateAuth c kvs mand = c.invalidAuth ∧ authZone kvs kind ≠ .valid := by
+  cases hl : Json.lookup kvs "auth" with
+  | none =>
+    unfold validateAuth at h ⊢
+    unfold authZone
+    simp only [hl] at h ⊢
+    cases mand with
+    | false => simp at h
+    | true => simp [hk rfl]
+  | some v =>
+    cases v with
+    | obj a =>
+      rw [validateAuth_obj c kvs a mand hl] at h ⊢
+      rw [authZone_obj kvs a kind hl]
+      cases hok : authObjOk a with
+      | true => simp [hok] at h
+      | false =>
+        refine ⟨by simp, ?_⟩
+        have hz : authObjZone a ≠ .valid := fun hv => by
+          have := authObj_valid_ok a hv; rw [hok] at this; cases this
+        split
+        · exact hz
+        · rw [Ne, worst_eq_valid]; simp
+    | _ => exact ⟨by simp [validateAuth, hl], by simp [authZone, hl]⟩
+
+/-- an `auth` that `_validate_auth` accepts is not forbidden by the documents -/
+theorem auth_accept (c : Codes) (kvs : List (String × Json)) (mand : Bool) (kind : MsgKind) (hc : c.invalidAuth ≠ 0)
+    (h : validateAuth c kvs mand = 0) (hk : kind = .tx → mand = true) : authZone kvs kind ≠ .invalid := by
+  cases hl : Json.lookup kvs "auth" with
+  | none =>
+    unfold validateAuth at h
+    unfold authZone
+    simp only [hl] at h ⊢
+    cases mand with
+    | true => simp at h; exact absurd h hc
+    | false =>
+      cases kind <;> simp
+      exact absurd (hk rfl) (by simp)
+  | some v =>
+    cases v with
+    | obj a =>
+      rw [validateAuth_obj c kvs a mand hl] at h
+      rw [authZone_obj kvs a kind hl]
+      cases hok : authObjOk a with
+      | false => simp [hok] at h; exact absurd h hc
+      | true =>
+        have hz := authObj_ok_not_invalid a hok
+        split
+        · exact hz
+        · rw [worst_ne_invalid]; exact ⟨hz, by simp⟩
+    | _ => simp [validateAuth, hl] at h; exact absurd h hc
+
+/-! ### message -/
+
+def hashOk (m : List (String × Json)) : Bool :=
+  m.length == 1 && hasField m "hash" (hexStrOfLength 32)
+
+def legacyOk (m : List (String × Json)) : Bool :=
+  m.length == 3 && hasField m "tx" nonemptyHexStr && hasField m "input" (intInRange 0 0xffffffff)
+    && hasField m "sighashComputationMode" (·.pyEqStr "legacy")
+
+def segwitOk (m : List (String × Json)) : Bool :=
+  m.length == 5 && hasField m "tx" nonemptyHexStr && hasField m "input" (intInRange 0 0xffffffff)
+    && hasField m "sighashComputationMode" (·.pyEqStr "segwit")
+    && hasField m "witnessScript" nonemptyHexStr
+    && hasField m "outpointValue" (intInRange 1 0xffffffffffffffff)
+
+theorem validateMessage_obj (c : Codes) (kvs m : List (String × Json)) (what : What)
+    (h : Json.lookup kvs "message" = some (.obj m)) :
+    validateMessage c kvs what =
+      if (what == .any || what == .hash) && hashOk m then 0
+      else if (what == .any || what == .tx) && (legacyOk m || segwitOk m) then 0
+      else c.invalidMessage := by
+  unfold validateMessage hashOk legacyOk segwitOk
+  simp only [h, Bool.and_assoc]
+  cases what <;> simp <;> (repeat' split) <;> first | (simp_all; done) | grind
+
+theorem validateMessage_nonobj (c : Codes) (kvs : List (String × Json)) (what : What)
+    (h : ∀ m, Json.lookup kvs "message" ≠ some (.obj m)) : validateMessage c kvs what = c.invalidMessage := by
+  unfold validateMessage
+  cases hl : Json.lookup kvs "message" with
+  | none => rfl
+  | some v => cases v <;> first | rfl | (rename_i m; exact absurd hl (h m))
+
+theorem hasField_iff (m : List (String × Json)) (k : String) (p : Json → Bool) :
+    hasField m k p = true ↔ ∃ v, Json.lookup m k = some v ∧ p v = true := by
+  unfold hasField
+  cases Json.lookup m k with
+  | none => simp
+  | some v => simp
+
+theorem intZone_valid_iff (j : Option Json) (lo hi : Int) :
+    intZone j lo hi = .valid ↔ ∃ v, j = some v ∧ intInRange lo hi v = true := by
+  cases j with
+  | none => simp [intZone]
+  | some v => cases v <;> simp [intZone, intInRange]
+
+theorem intZone_ne_invalid_iff (j : Option Json) (lo hi : Int) :
+    intZone j lo hi ≠ .invalid ↔ intZone j lo hi = .valid := by
+  cases j with
+  | none => simp [intZone]
+  | some v =>
+    cases v <;> simp [intZone]
+
+theorem txZone_valid (j : Option Json) (h : txZone j = .valid) :
+    ∃ v, j = some v ∧ nonemptyHexStr v = true := by
+  cases j with
+  | none => simp [txZone] at h
+  | some v =>
+    cases v <;> simp only [txZone] at h <;> try (cases h; done)
+    rename_i s
+    refine ⟨_, rfl, ?_⟩
+    cases hf : Py.fromHex s with
+    | none => rw [hf] at h; cases h
+    | some b =>
+      cases b with
+      | nil => rw [hf] at h; cases h
+      | cons x xs => simp [nonemptyHexStr, Py.isNonemptyHex, hf]
+
+theorem txZone_ne_invalid (s : String) (b : Bytes) (u : Bytes) (hf : Py.fromHex s = some b) (hb : b ≠ [])
+    (hu : Btc.getUnsignedTx b = some u) : txZone (some (.str s)) ≠ .invalid := by
+  cases b with
+  | nil => exact absurd rfl hb
+  | cons x xs =>
+    simp only [txZone, hf, hu]
+    split <;> simp
+
+def legacyFlag (m : List (String × Json)) : Bool :=
+  (Json.lookup m "sighashComputationMode").map (·.pyEqStr "legacy") == some true
+def segwitFlag (m : List (String × Json)) : Bool :=
+  (Json.lookup m "sighashComputationMode").map (·.pyEqStr "segwit") == some true
+
+def keysL : List String := ["tx", "input", "sighashComputationMode"]
+def keysS : List String := ["tx", "input", "sighashComputationMode", "witnessScript", "outpointValue"]
+
+def zoneL (m : List (String × Json)) : Zone :=
+  worst (txZone (Json.lookup m "tx")) (intZone (Json.lookup m "input") 0 0xffffffff)
+def zoneS (m : List (String × Json)) : Zone :=
+  worstAll [txZone (Json.lookup m "tx"), intZone (Json.lookup m "input") 0 0xffffffff,
+            hexZone ((Json.lookup m "witnessScript").getD .null) (fun n => n + 3 + 8 < 65536),
+            intZone (Json.lookup m "outpointValue") 1 0xffffffffffffffff]
+
+theorem messageZone_obj (kvs m : List (String × Json)) (h : Json.lookup kvs "message" = some (.obj m)) :
+    messageZone kvs =
+      if keysAre m ["hash"] then (hexOfLenZone ((Json.lookup m "hash").getD .null) 32 false, .hash)
+      else if keysAre m keysL && legacyFlag m then (zoneL m, .tx)
+      else if keysAre m keysS && segwitFlag m then (zoneS m, .tx)
+      else (.invalid, .bad) := by
+  unfold messageZone legacyFlag segwitFlag keysL keysS zoneL zoneS
+  simp only [h]
+
+theorem messageZone_nonobj (kvs : List (String × Json)) (h : ∀ m, Json.lookup kvs "message" ≠ some (.obj m)) :
+    messageZone kvs = (.invalid, .bad) := by
+  unfold messageZone
+  cases hl : Json.lookup kvs "message" with
+  | none => rfl
+  | some v => cases v <;> first | rfl | (rename_i m; exact absurd hl (h m))
+
+theorem legacyFlag_iff (m : List (String × Json)) :
+    legacyFlag m = true ↔ hasField m "sighashComputationMode" (·.pyEqStr "legacy") = true := by
+  unfold legacyFlag hasField
+  cases Json.lookup m "sighashComputationMode" with
+  | none => simp
+  | some v => cases h : v.pyEqStr "legacy" <;> simp [h]
+
+theorem segwitFlag_iff (m : List (String × Json)) :
+    segwitFlag m = true ↔ hasField m "sighashComputationMode" (·.pyEqStr "segwit") = true := by
+  unfold segwitFlag hasField
+  cases Json.lookup m "sighashComputationMode" with
+  | none => simp
+  | some v => cases h : v.pyEqStr "segwit" <;> simp [h]
+
+theorem hasField_isSome {m : List (String × Json)} {k : String} {p : Json → Bool} (h : hasField m k p = true) :
+    (Json.lookup m k).isSome = true := by
+  obtain ⟨v, hv, _⟩ := (hasField_iff m k p).1 h
+  simp [hv]
+
+theorem hashOk_spec (m : List (String × Json)) (h : hashOk m = true) :
+    keysAre m ["hash"] = true ∧ hexOfLenZone ((Json.lookup m "hash").getD .null) 32 false ≠ .invalid := by
+  unfold hashOk at h
+  simp only [Bool.and_eq_true, beq_iff_eq] at h
+  obtain ⟨hl, hf⟩ := h
+  obtain ⟨v, hv, hp⟩ := (hasField_iff _ _ _).1 hf
+  refine ⟨(keysAre_iff m _).2 ⟨by simp [hl], by simp [hv]⟩, ?_⟩
+  rw [hv]
+  exact (hexOfLen_sound v 32 false).2 hp
+
+theorem hashOk_of_valid (m : List (String × Json)) (hk : keysAre m ["hash"] = true)
+    (hz : hexOfLenZone ((Json.lookup m "hash").getD .null) 32 false = .valid) : hashOk m = true := by
+  obtain ⟨hl, hall⟩ := (keysAre_iff m _).1 hk
+  have hs := hall "hash" (by simp)
+  cases hv : Json.lookup m "hash" with
+  | none => simp [hv] at hs
+  | some v =>
+    rw [hv] at hz
+    have := (hexOfLen_sound v 32 false).1 (by simpa using hz)
+    unfold hashOk
+    simp only [Bool.and_eq_true, beq_iff_eq]
+    exact ⟨by simpa using hl, (hasField_iff _ _ _).2 ⟨v, hv, this⟩⟩
+
+theorem legacyOk_spec (m : List (String × Json)) (h : legacyOk m = true) :
+    keysAre m ["hash"] = false ∧ keysAre m keysL = true ∧ legacyFlag m = true ∧
+    intZone (Json.lookup m "input") 0 0xffffffff = .valid ∧
+    ∃ v, Json.lookup m "tx" = some v ∧ nonemptyHexStr v = true := by
+  unfold legacyOk at h
+  simp only [Bool.and_eq_true, beq_iff_eq] at h
+  obtain ⟨⟨⟨hl, htx⟩, hin⟩, hmode⟩ := h
+  refine ⟨?_, ?_, (legacyFlag_iff m).2 hmode, ?_, ?_⟩
+  · cases hk : keysAre m ["hash"] with
+    | false => rfl
+    | true => have := ((keysAre_iff m _).1 hk).1; simp at this; omega
+  · refine (keysAre_iff m _).2 ⟨by simp [keysL, hl], ?_⟩
+    intro k hk
+    simp only [keysL, List.mem_cons, List.mem_nil_iff, or_false] at hk
+    rcases hk with rfl | rfl | rfl
+    · exact hasField_isSome htx
+    · exact hasField_isSome hin
+    · exact hasField_isSome hmode
+  · obtain ⟨v, hv, hp⟩ := (hasField_iff _ _ _).1 hin
+    exact (intZone_valid_iff _ _ _).2 ⟨v, hv, hp⟩
+  · obtain ⟨v, hv, hp⟩ := (hasField_iff _ _ _).1 htx
+    exact ⟨v, hv, hp⟩
+
+theorem legacyOk_of_valid (m : List (String × Json)) (hk : keysAre m keysL = true) (hf : legacyFlag m = true)
+    (hz : zoneL m = .valid) : legacyOk m = true := by
+  obtain ⟨hl, _⟩ := (keysAre_iff m _).1 hk
+  unfold zoneL at hz
+  rw [worst_eq_valid] at hz
+  obtain ⟨v, hv, hp⟩ := txZone_valid _ hz.1
+  obtain ⟨i, hi, hip⟩ := (intZone_valid_iff _ _ _).1 hz.2
+  unfold legacyOk
+  simp only [Bool.and_eq_true, beq_iff_eq]
+  exact ⟨⟨⟨by simpa [keysL] using hl, (hasField_iff _ _ _).2 ⟨v, hv, hp⟩⟩, (hasField_iff _ _ _).2 ⟨i, hi, hip⟩⟩,
+    (legacyFlag_iff m).1 hf⟩
+
+theorem segwitOk_spec (m : List (String × Json)) (h : segwitOk m = true) :
+    keysAre m ["hash"] = false ∧ keysAre m keysL = false ∧ keysAre m keysS = true ∧ segwitFlag m = true ∧
+    intZone (Json.lookup m "input") 0 0xffffffff = .valid ∧
+    intZone (Json.lookup m "outpointValue") 1 0xffffffffffffffff = .valid ∧
+    hexZone ((Json.lookup m "witnessScript").getD .null) (fun n => n + 3 + 8 < 65536) ≠ .invalid ∧
+    ∃ v, Json.lookup m "tx" = some v ∧ nonemptyHexStr v = true := by
+  unfold segwitOk at h
+  simp only [Bool.and_eq_true, beq_iff_eq] at h
+  obtain ⟨⟨⟨⟨⟨hl, htx⟩, hin⟩, hmode⟩, hws⟩, hop⟩ := h
+  refine ⟨?_, ?_, ?_, (segwitFlag_iff m).2 hmode, ?_, ?_, ?_, ?_⟩
+  · cases hk : keysAre m ["hash"] with
+    | false => rfl
+    | true => have := ((keysAre_iff m _).1 hk).1; simp at this; omega
+  · cases hk : keysAre m keysL with
+    | false => rfl
+    | true => have := ((keysAre_iff m _).1 hk).1; simp [keysL] at this; omega
+  · refine (keysAre_iff m _).2 ⟨by simp [keysS, hl], ?_⟩
+    intro k hk
+    simp only [keysS, List.mem_cons, List.mem_nil_iff, or_false] at hk
+    rcases hk with rfl | rfl | rfl | rfl | rfl
+    · exact hasField_isSome htx
+    · exact hasField_isSome hin
+    · exact hasField_isSome hmode
+    · exact hasField_isSome hws
+    · exact hasField_isSome hop
+  · obtain ⟨v, hv, hp⟩ := (hasField_iff _ _ _).1 hin
+    exact (intZone_valid_iff _ _ _).2 ⟨v, hv, hp⟩
+  · obtain ⟨v, hv, hp⟩ := (hasField_iff _ _ _).1 hop
+    exact (intZone_valid_iff _ _ _).2 ⟨v, hv, hp⟩
+  · obtain ⟨v, hv, hp⟩ := (hasField_iff _ _ _).1 hws
+    rw [hv]
+    exact hexZone_nonempty_not_invalid v _ hp
+  · obtain ⟨v, hv, hp⟩ := (hasField_iff _ _ _).1 htx
+    exact ⟨v, hv, hp⟩
+
+theorem segwitOk_of_valid (m : List (String × Json)) (hk : keysAre m keysS = true) (hf : segwitFlag m = true)
+    (hz : zoneS m = .valid) : segwitOk m = true := by
+  obtain ⟨hl, _⟩ := (keysAre_iff m _).1 hk
+  unfold zoneS at hz
+  rw [worstAll_eq_valid] at hz
+  obtain ⟨v, hv, hp⟩ := txZone_valid _ (hz (txZone (Json.lookup m "tx")) (by simp))
+  obtain ⟨i, hi, hip⟩ := (intZone_valid_iff _ _ _).1 (hz (intZone (Json.lookup m "input") 0 0xffffffff) (by simp))
+  obtain ⟨o, ho, hop⟩ := (intZone_valid_iff _ _ _).1
+    (hz (intZone (Json.lookup m "outpointValue") 1 0xffffffffffffffff) (by simp))
+  have hw := hexZone_valid_nonempty _ _
+    (hz (hexZone ((Json.lookup m "witnessScript").getD .null) (fun n => n + 3 + 8 < 65536)) (by simp))
+  have hws : hasField m "witnessScript" nonemptyHexStr = true := by
+    cases hl2 : Json.lookup m "witnessScript" with
+    | none => rw [hl2] at hw; simp [nonemptyHexStr] at hw
+    | some w => rw [hl2] at hw; exact (hasField_iff _ _ _).2 ⟨w, hl2, by simpa using hw⟩
+  unfold segwitOk
+  simp only [Bool.and_eq_true, beq_iff_eq]
+  exact ⟨⟨⟨⟨⟨by simpa [keysS] using hl, (hasField_iff _ _ _).2 ⟨v, hv, hp⟩⟩, (hasField_iff _ _ _).2 ⟨i, hi, hip⟩⟩,
+    (segwitFlag_iff m).1 hf⟩, hws⟩, (hasField_iff _ _ _).2 ⟨o, ho, hop⟩⟩
+
+/-! ### the message validators against the message zone -/
+
+/-- `request["message"]` as `_sign` reads it -/
+def msgObjOf (kvs : List (String × Json)) : List (String × Json) :=
+  match Json.lookup kvs "message" with | some (.obj m) => m | _ => []
+
+/-- the unsigned transaction `_sign` computes -/
+def utxOf (kvs : List (String × Json)) : Option Bytes :=
+  ((strField? (msgObjOf kvs) "tx").bind Py.fromHex).bind Btc.getUnsignedTx
+
+theorem msgObjOf_obj {kvs m : List (String × Json)} (h : Json.lookup kvs "message" = some (.obj m)) :
+    msgObjOf kvs = m := by simp [msgObjOf, h]
+
+theorem msgObjOf_nonobj {kvs : List (String × Json)} (h : ∀ m, Json.lookup kvs "message" ≠ some (.obj m)) :
+    msgObjOf kvs = [] := by
+  unfold msgObjOf
+  cases hl : Json.lookup kvs "message" with
+  | none => rfl
+  | some v => cases v <;> first | rfl | (rename_i m; exact absurd hl (h m))
+
+theorem obj_or_not (kvs : List (String × Json)) :
+    (∃ m, Json.lookup kvs "message" = some (.obj m)) ∨ (∀ m, Json.lookup kvs "message" ≠ some (.obj m)) := by
+  cases hl : Json.lookup kvs "message" with
+  | none => right; intro m h; cases h
+  | some v =>
+    cases v
+    case obj m => left; exact ⟨m, rfl⟩
+    all_goals (right; intro m h; cases h)
+
+theorem hash_not_in_keysL : "hash" ∉ keysL := by decide
+theorem hash_not_in_keysS : "hash" ∉ keysS := by decide
+theorem keysL_nodup : keysL.Nodup := by decide
+theorem keysS_nodup : keysS.Nodup := by decide
+
+theorem no_hash_of_keysL (m : List (String × Json)) (hk : keysAre m keysL = true) : Json.lookup m "hash" = none := by
+  obtain ⟨hl, hall⟩ := (keysAre_iff m _).1 hk
+  cases h : Json.lookup m "hash" with
+  | none => rfl
+  | some v => exact absurd (keys_exact m keysL keysL_nodup hl hall "hash" (by simp [h])) hash_not_in_keysL
+
+theorem no_hash_of_keysS (m : List (String × Json)) (hk : keysAre m keysS = true) : Json.lookup m "hash" = none := by
+  obtain ⟨hl, hall⟩ := (keysAre_iff m _).1 hk
+  cases h : Json.lookup m "hash" with
+  | none => rfl
+  | some v => exact absurd (keys_exact m keysS keysS_nodup hl hall "hash" (by simp [h])) hash_not_in_keysS
+
+/-- the message zone is `valid` only in one of the three documented shapes -/
+theorem mz_valid_cases (kvs : List (String × Json)) (h : (messageZone kvs).1 = .valid) :
+    ∃ m, Json.lookup kvs "message" = some (.obj m) ∧
+      ((hashOk m = true ∧ (Json.lookup m "hash").isSome = true) ∨
+       ((legacyOk m = true ∨ segwitOk m = true) ∧ Json.lookup m "hash" = none)) := by
+  rcases obj_or_not kvs with ⟨m, hm⟩ | hn
+  · refine ⟨m, hm, ?_⟩
+    rw [messageZone_obj kvs m hm] at h
+    split at h
+    · rename_i hk
+      left
+      exact ⟨hashOk_of_valid m hk h, ((keysAre_iff m _).1 hk).2 "hash" (by simp)⟩
+    · split at h
+      · rename_i hk
+        simp only [Bool.and_eq_true] at hk
+        right
+        exact ⟨Or.inl (legacyOk_of_valid m hk.1 hk.2 h), no_hash_of_keysL m hk.1⟩
+      · split at h
+        · rename_i hk
+          simp only [Bool.and_eq_true] at hk
+          right
+          exact ⟨Or.inr (segwitOk_of_valid m hk.1 hk.2 h), no_hash_of_keysS m hk.1⟩
+        · cases h
+  · rw [messageZone_nonobj kvs hn] at h; cases h
+
+/-- a refusal by `_validate_message` names a message the documents do not call valid: for any shape;
+    for the hash shape when the message has a `hash` member; for the transaction shapes when it has none -/
+theorem message_refusal (c : Codes) (kvs : List (String × Json)) (what : What)
+    (h : validateMessage c kvs what ≠ 0)
+    (hw : what = .any ∨ (what = .hash ∧ (Json.lookup (msgObjOf kvs) "hash").isSome = true) ∨
+          (what = .tx ∧ Json.lookup (msgObjOf kvs) "hash" = none)) :
+    validateMessage c kvs what = c.invalidMessage ∧ (messageZone kvs).1 ≠ .valid := by
+  rcases obj_or_not kvs with ⟨m, hm⟩ | hn
+  · rw [validateMessage_obj c kvs m what hm] at h ⊢
+    rw [msgObjOf_obj hm] at hw
+    have hcode : (if (what == .any || what == .hash) && hashOk m then (0 : Int)
+        else if (what == .any || what == .tx) && (legacyOk m || segwitOk m) then 0 else c.invalidMessage)
+        = c.invalidMessage := by
+      split at h
+      · exact absurd rfl h
+      · split at h
+        · exact absurd rfl h
+        · rename_i h1 h2; simp [h1, h2]
+    refine ⟨hcode, fun hv => ?_⟩
+    obtain ⟨m', hm', hcase⟩ := mz_valid_cases kvs hv
+    rw [hm] at hm'
+    injection hm' with hm'
+    injection hm' with hm'
+    subst hm'
+    rcases hcase with ⟨hok, hsome⟩ | ⟨hok, hnone⟩
+    · rcases hw with rfl | ⟨rfl, _⟩ | ⟨rfl, hno⟩
+      · simp [hok] at h
+      · simp [hok] at h
+      · rw [hno] at hsome; cases hsome
+    · have hor : (legacyOk m || segwitOk m) = true := by simpa using hok
+      rcases hw with rfl | ⟨rfl, hyes⟩ | ⟨rfl, _⟩
+      · simp [hor] at h
+      · rw [hnone] at hyes; cases hyes
+      · simp [hor] at h
+  · rw [validateMessage_nonobj c kvs what hn]
+    rw [messageZone_nonobj kvs hn]
+    exact ⟨rfl, by simp⟩
+
+theorem accepted_obj (c : Codes) (kvs : List (String × Json)) (what : What) (hc : c.invalidMessage ≠ 0)
+    (h : validateMessage c kvs what = 0) :
+    ∃ m, Json.lookup kvs "message" = some (.obj m) ∧
+      (((what = .any ∨ what = .hash) ∧ hashOk m = true) ∨
+       ((what = .any ∨ what = .tx) ∧ (legacyOk m = true ∨ segwitOk m = true))) := by
+  rcases obj_or_not kvs with ⟨m, hm⟩ | hn
+  · refine ⟨m, hm, ?_⟩
+    rw [validateMessage_obj c kvs m what hm] at h
+    split at h
+    · rename_i h1
+      left
+      simp only [Bool.and_eq_true, Bool.or_eq_true, beq_iff_eq] at h1
+      exact h1
+    · split at h
+      · rename_i h1 h2
+        right
+        simp only [Bool.and_eq_true, Bool.or_eq_true, beq_iff_eq] at h2
+        exact h2
+      · exact absurd h hc
+  · rw [validateMessage_nonobj c kvs what hn] at h
+    exact absurd h hc
+
+theorem messageZone_hashOk (kvs m : List (String × Json)) (hm : Json.lookup kvs "message" = some (.obj m))
+    (hok : hashOk m = true) : (messageZone kvs).1 ≠ .invalid ∧ (messageZone kvs).2 = .hash := by
+  obtain ⟨hk, hz⟩ := hashOk_spec m hok
+  rw [messageZone_obj kvs m hm, if_pos hk]
+  exact ⟨hz, rfl⟩
+
+theorem messageZone_legacyOk (kvs m : List (String × Json)) (hm : Json.lookup kvs "message" = some (.obj m))
+    (hok : legacyOk m = true) : messageZone kvs = (zoneL m, .tx) := by
+  obtain ⟨h1, h2, h3, _, _⟩ := legacyOk_spec m hok
+  rw [messageZone_obj kvs m hm, if_neg (by simp [h1]), if_pos (by simp [h2, h3])]
+
+theorem messageZone_segwitOk (kvs m : List (String × Json)) (hm : Json.lookup kvs "message" = some (.obj m))
+    (hok : segwitOk m = true) : messageZone kvs = (zoneS m, .tx) := by
+  obtain ⟨h1, h2, h3, h4, _⟩ := segwitOk_spec m hok
+  rw [messageZone_obj kvs m hm, if_neg (by simp [h1]), if_neg (by simp [h2]), if_pos (by simp [h3, h4])]
+
+/-- the hash shape, accepted: not forbidden, and the kind the `auth` rule looks at is "hash" -/
+theorem message_accept_hash (c : Codes) (kvs : List (String × Json)) (hc : c.invalidMessage ≠ 0)
+    (h : validateMessage c kvs .hash = 0) :
+    (messageZone kvs).1 ≠ .invalid ∧ (messageZone kvs).2 = .hash := by
+  obtain ⟨m, hm, hcase⟩ := accepted_obj c kvs .hash hc h
+  rcases hcase with ⟨_, hok⟩ | ⟨hw, _⟩
+  · exact messageZone_hashOk kvs m hm hok
+  · rcases hw with hw | hw <;> cases hw
+
+/-- what passed the first stage and has no `hash` member is of the transaction kind -/
+theorem kind_tx_of_any (c : Codes) (kvs : List (String × Json)) (hc : c.invalidMessage ≠ 0)
+    (h : validateMessage c kvs .any = 0) (hno : Json.lookup (msgObjOf kvs) "hash" = none) :
+    (messageZone kvs).2 = .tx := by
+  obtain ⟨m, hm, hcase⟩ := accepted_obj c kvs .any hc h
+  rw [msgObjOf_obj hm] at hno
+  rcases hcase with ⟨_, hok⟩ | ⟨_, hok | hok⟩
+  · have := (hashOk_spec m hok).1
+    have := ((keysAre_iff m _).1 this).2 "hash" (by simp)
+    rw [hno] at this; cases this
+  · rw [messageZone_legacyOk kvs m hm hok]
+  · rw [messageZone_segwitOk kvs m hm hok]
+
+theorem tx_field (kvs m : List (String × Json)) (hm : Json.lookup kvs "message" = some (.obj m))
+    (v : Json) (hv : Json.lookup m "tx" = some v) (hp : nonemptyHexStr v = true) :
+    ∃ s b bs, v = .str s ∧ Py.fromHex s = some (b :: bs) ∧ utxOf kvs = Btc.getUnsignedTx (b :: bs) := by
+  cases v <;> simp only [nonemptyHexStr] at hp <;> try (cases hp; done)
+  rename_i s
+  unfold Py.isNonemptyHex at hp
+  cases hf : Py.fromHex s with
+  | none => rw [hf] at hp; cases hp
+  | some bb =>
+    cases bb with
+    | nil => rw [hf] at hp; cases hp
+    | cons b bs =>
+      refine ⟨s, b, bs, rfl, hf, ?_⟩
+      unfold utxOf strField?
+      rw [msgObjOf_obj hm, hv]
+      simp [hf]
+
+/-- the transaction shapes, accepted by the validator: the zone is decided by whether the transaction
+    decodes -/
+theorem message_tx_zone (c : Codes) (kvs : List (String × Json)) (hc : c.invalidMessage ≠ 0)
+    (h : validateMessage c kvs .tx = 0) :
+    (messageZone kvs).2 = .tx ∧
+    ((utxOf kvs).isSome = true → (messageZone kvs).1 ≠ .invalid) ∧
+    (utxOf kvs = none → (messageZone kvs).1 ≠ .valid) := by
+  obtain ⟨m, hm, hcase⟩ := accepted_obj c kvs .tx hc h
+  rcases hcase with ⟨hw, _⟩ | ⟨_, hok | hok⟩
+  · rcases hw with hw | hw <;> cases hw
+  · obtain ⟨_, _, _, hin, v, hv, hp⟩ := legacyOk_spec m hok
+    obtain ⟨s, b, bs, rfl, hf, hu⟩ := tx_field kvs m hm v hv hp
+    rw [messageZone_legacyOk kvs m hm hok]
+    refine ⟨rfl, fun hs => ?_, fun hn => ?_⟩
+    · simp only [zoneL]
+      rw [worst_ne_invalid, hv, hin]
+      rw [hu] at hs
+      cases hg : Btc.getUnsignedTx (b :: bs) with
+      | none => rw [hg] at hs; cases hs
+      | some u => exact ⟨txZone_ne_invalid s _ u hf (by simp) hg, by simp⟩
+    · simp only [zoneL]
+      rw [Ne, worst_eq_valid, hv]
+      rw [hu] at hn
+      simp [txZone, hf, hn]
+  · obtain ⟨_, _, _, _, hin, hop, hws, v, hv, hp⟩ := segwitOk_spec m hok
+    obtain ⟨s, b, bs, rfl, hf, hu⟩ := tx_field kvs m hm v hv hp
+    rw [messageZone_segwitOk kvs m hm hok]
+    refine ⟨rfl, fun hs => ?_, fun hn => ?_⟩
+    · simp only [zoneS]
+      rw [worstAll_ne_invalid]
+      rw [hu] at hs
+      cases hg : Btc.getUnsignedTx (b :: bs) with
+      | none => rw [hg] at hs; cases hs
+      | some u =>
+        intro z hz
+        simp only [List.mem_cons, List.mem_nil_iff, or_false] at hz
+        rcases hz with rfl | rfl | rfl | rfl
+        · rw [hv]; exact txZone_ne_invalid s _ u hf (by simp) hg
+        · rw [hin]; simp
+        · exact hws
+        · rw [hop]; simp
+    · simp only [zoneS]
+      rw [Ne, worstAll_eq_valid]
+      intro hall
+      have := hall (txZone (Json.lookup m "tx")) (by simp)
+      rw [hu] at hn
+      rw [hv] at this
+      simp [txZone, hf, hn] at this
+
+/-! ### `sign`, version 5: both stages -/
+
+/-- the verdict `sign` reaches before any exchange with the device: the refusal code of
+    `_validate_sign` (comm/protocol.py) or of `_sign`'s own validation (ledger/protocol.py), or `none`
+    when the request goes on to the device -/
+def signV5Verdict (kvs : List (String × Json)) : Option Int :=
+  let c := codes .v5
+  match validateSign .v5 kvs with
+  | .error e => some e
+  | .ok _ =>
+    if (Json.lookup (msgObjOf kvs) "hash").isSome then
+      if validateMessage c kvs .hash < 0 then some (validateMessage c kvs .hash) else none
+    else if validateAuth c kvs true < 0 then some (validateAuth c kvs true)
+    else if validateMessage c kvs .tx < 0 then some (validateMessage c kvs .tx)
+    else match utxOf kvs with
+      | none => some c.invalidMessage
+      | some _ => none
+
+theorem v5_codes : (codes .v5).invalidKeyId = -103 ∧ (codes .v5).invalidMessage = -102 ∧
+    (codes .v5).invalidAuth = -101 := by decide
+
+theorem fieldZones_sign (kvs : List (String × Json)) :
+    fieldZones .v5 "sign" kvs =
+      [(-103, keyIdZone kvs), (-102, (messageZone kvs).1), (-101, authZone kvs (messageZone kvs).2)] := by
+  simp [fieldZones]
+
+theorem validateSign_v5_ok (kvs : List (String × Json)) (p : List Nat) (h : validateSign .v5 kvs = .ok p) :
+    validateKeyId (codes .v5) kvs = .ok p ∧ validateAuth (codes .v5) kvs false = 0 ∧
+    validateMessage (codes .v5) kvs .any = 0 := by
+  unfold validateSign at h
+  simp only at h
+  cases hk : validateKeyId (codes .v5) kvs with
+  | error e => rw [hk] at h; cases h
+  | ok path =>
+    rw [hk] at h
+    simp only at h
+    split at h
+    · cases h
+    · rename_i ha
+      split at h
+      · cases h
+      · rename_i hm
+        injection h with h
+        subst h
+        have a0 : validateAuth (codes .v5) kvs false = 0 := by
+          rcases Classical.em (validateAuth (codes .v5) kvs false = 0) with h0 | h0
+          · exact h0
+          · have := (auth_refusal (codes .v5) kvs false .hash h0 (by simp)).1
+            rw [this] at ha; exact absurd (by decide) ha
+        have m0 : validateMessage (codes .v5) kvs .any = 0 := by
+          rcases Classical.em (validateMessage (codes .v5) kvs .any = 0) with h0 | h0
+          · exact h0
+          · have := (message_refusal (codes .v5) kvs .any h0 (Or.inl rfl)).1
+            rw [this] at hm; exact absurd (by decide) hm
+        exact ⟨rfl, a0, m0⟩
+
+/-- **every refusal of `sign` carries the code of a field the documents do not call valid** -/
+theorem sign_refusal_allowed (kvs : List (String × Json)) (e : Int) (h : signV5Verdict kvs = some e) :
+    e < 0 ∧ ∃ z, (e, z) ∈ fieldZones .v5 "sign" kvs ∧ z ≠ .valid := by
+  obtain ⟨ck, cm, ca⟩ := v5_codes
+  rw [fieldZones_sign]
+  unfold signV5Verdict at h
+  simp only at h
+  cases hv : validateSign .v5 kvs with
+  | error e' =>
+    rw [hv] at h
+    injection h with h
+    subst h
+    -- first stage
+    unfold validateSign at hv
+    simp only at hv
+    cases hk : validateKeyId (codes .v5) kvs with
+    | error e'' =>
+      rw [hk] at hv
+      injection hv with hv
+      obtain ⟨hcode, hz⟩ := keyId_refusal _ _ _ hk
+      rw [← hv, hcode, ck]
+      exact ⟨by decide, _, by simp, hz⟩
+    | ok path =>
+      rw [hk] at hv
+      simp only at hv
+      split at hv
+      · rename_i ha
+        injection hv with hv
+        obtain ⟨hcode, hz⟩ := auth_refusal (codes .v5) kvs false (messageZone kvs).2 (by omega) (by simp)
+        rw [← hv, hcode, ca]
+        exact ⟨by decide, _, by simp, hz⟩
+      · split at hv
+        · rename_i hm
+          injection hv with hv
+          obtain ⟨hcode, hz⟩ := message_refusal (codes .v5) kvs .any (by omega) (Or.inl rfl)
+          rw [← hv, hcode, cm]
+          exact ⟨by decide, _, by simp, hz⟩
+        · cases hv
+  | ok path =>
+    rw [hv] at h
+    simp only at h
+    obtain ⟨_, a0, m0⟩ := validateSign_v5_ok kvs path hv
+    split at h
+    · rename_i hyes
+      split at h
+      · rename_i hm
+        injection h with h
+        obtain ⟨hcode, hz⟩ := message_refusal (codes .v5) kvs .hash (by omega) (Or.inr (Or.inl ⟨rfl, hyes⟩))
+        rw [← h, hcode, cm]
+        exact ⟨by decide, _, by simp, hz⟩
+      · cases h
+    · rename_i hno
+      have hno' : Json.lookup (msgObjOf kvs) "hash" = none := by
+        cases hl : Json.lookup (msgObjOf kvs) "hash" with
+        | none => rfl
+        | some v => rw [hl] at hno; simp at hno
+      have hkind := kind_tx_of_any (codes .v5) kvs (by rw [cm]; decide) m0 hno'
+      split at h
+      · rename_i ha
+        injection h with h
+        obtain ⟨hcode, hz⟩ := auth_refusal (codes .v5) kvs true (messageZone kvs).2 (by omega) (fun _ => hkind)
+        rw [← h, hcode, ca]
+        exact ⟨by decide, _, by simp, hz⟩
+      · split at h
+        · rename_i hm
+          injection h with h
+          obtain ⟨hcode, hz⟩ := message_refusal (codes .v5) kvs .tx (by omega) (Or.inr (Or.inr ⟨rfl, hno'⟩))
+          rw [← h, hcode, cm]
+          exact ⟨by decide, _, by simp, hz⟩
+        · rename_i hm
+          have t0 : validateMessage (codes .v5) kvs .tx = 0 := by
+            rcases Classical.em (validateMessage (codes .v5) kvs .tx = 0) with h0 | h0
+            · exact h0
+            · have := (message_refusal (codes .v5) kvs .tx h0 (Or.inr (Or.inr ⟨rfl, hno'⟩))).1
+              rw [this] at hm; exact absurd (by decide) hm
+          cases hu : utxOf kvs with
+          | some u => rw [hu] at h; cases h
+          | none =>
+            rw [hu] at h
+            injection h with h
+            have hz := (message_tx_zone (codes .v5) kvs (by rw [cm]; decide) t0).2.2 hu
+            rw [← h, cm]
+            exact ⟨by decide, _, by simp, hz⟩
+
+theorem zero_of_not_neg_auth (kvs : List (String × Json)) (mand : Bool) (kind : MsgKind)
+    (hk : mand = true → kind = .tx) (h : ¬ validateAuth (codes .v5) kvs mand < 0) :
+    validateAuth (codes .v5) kvs mand = 0 := by
+  rcases Classical.em (validateAuth (codes .v5) kvs mand = 0) with h0 | h0
+  · exact h0
+  · have := (auth_refusal (codes .v5) kvs mand kind h0 hk).1
+    rw [this] at h; exact absurd (by decide) h
+
+/-- **what `sign` lets through to the device the documents do not forbid** -/
+theorem sign_pass_not_forbidden (kvs : List (String × Json)) (h : signV5Verdict kvs = none) :
+    ∀ cz ∈ fieldZones .v5 "sign" kvs, cz.2 ≠ .invalid := by
+  obtain ⟨ck, cm, ca⟩ := v5_codes
+  rw [fieldZones_sign]
+  unfold signV5Verdict at h
+  simp only at h
+  cases hv : validateSign .v5 kvs with
+  | error e' => rw [hv] at h; cases h
+  | ok path =>
+    rw [hv] at h
+    simp only at h
+    obtain ⟨k0, a0, m0⟩ := validateSign_v5_ok kvs path hv
+    have hkz := keyId_accept_not_invalid _ _ _ k0
+    split at h
+    · rename_i hyes
+      split at h
+      · cases h
+      · rename_i hm
+        have h0 : validateMessage (codes .v5) kvs .hash = 0 := by
+          rcases Classical.em (validateMessage (codes .v5) kvs .hash = 0) with h0 | h0
+          · exact h0
+          · have := (message_refusal (codes .v5) kvs .hash h0 (Or.inr (Or.inl ⟨rfl, hyes⟩))).1
+            rw [this] at hm; exact absurd (by decide) hm
+        obtain ⟨hmz, hkind⟩ := message_accept_hash (codes .v5) kvs (by rw [cm]; decide) h0
+        have haz := auth_accept (codes .v5) kvs false (messageZone kvs).2 (by rw [ca]; decide) a0
+          (by rw [hkind]; intro hh; cases hh)
+        intro cz hcz
+        simp only [List.mem_cons, List.mem_nil_iff, or_false] at hcz
+        rcases hcz with rfl | rfl | rfl
+        · exact hkz
+        · exact hmz
+        · exact haz
+    · rename_i hno
+      have hno' : Json.lookup (msgObjOf kvs) "hash" = none := by
+        cases hl : Json.lookup (msgObjOf kvs) "hash" with
+        | none => rfl
+        | some v => rw [hl] at hno; simp at hno
+      have hkind := kind_tx_of_any (codes .v5) kvs (by rw [cm]; decide) m0 hno'
+      split at h
+      · cases h
+      · rename_i ha
+        have a1 := zero_of_not_neg_auth kvs true (messageZone kvs).2 (fun _ => hkind) ha
+        split at h
+        · cases h
+        · rename_i hm
+          have t0 : validateMessage (codes .v5) kvs .tx = 0 := by
+            rcases Classical.em (validateMessage (codes .v5) kvs .tx = 0) with h0 | h0
+            · exact h0
+            · have := (message_refusal (codes .v5) kvs .tx h0 (Or.inr (Or.inr ⟨rfl, hno'⟩))).1
+              rw [this] at hm; exact absurd (by decide) hm
+          cases hu : utxOf kvs with
+          | none => rw [hu] at h; cases h
+          | some u =>
+            have hmz := (message_tx_zone (codes .v5) kvs (by rw [cm]; decide) t0).2.1 (by simp [hu])
+            have haz := auth_accept (codes .v5) kvs true (messageZone kvs).2 (by rw [ca]; decide) a1 (fun _ => rfl)
+            intro cz hcz
+            simp only [List.mem_cons, List.mem_nil_iff, or_false] at hcz
+            rcases hcz with rfl | rfl | rfl
+            · exact hkz
+            · exact hmz
+            · exact haz
+
+/-- `signV5` with the message object as a parameter -/
+def signV5body (c : Codes) (req : List (String × Json)) (path : List Nat) (msgObj : List (String × Json)) : M Out :=
+  if (Json.lookup msgObj "hash").isSome then
+    let v := validateMessage c req .hash
+    if v < 0 then pure (v, [])
+    else
+      let h := (strField? msgObj "hash").bind Py.fromHex
+      signGuard c (do ensureConnection; Dongle.signUnauthorized path h)
+        (signReply translateSign translateSignDefault)
+  else
+    let a := validateAuth c req true
+    if a < 0 then pure (a, [])
+    else
+      let v := validateMessage c req .tx
+      if v < 0 then pure (v, [])
+      else
+        match ((strField? msgObj "tx").bind Py.fromHex).bind Btc.getUnsignedTx with
+        | none => pure (c.invalidMessage, [])
+        | some utx =>
+          let auth := match Json.lookup req "auth" with | some (.obj a) => a | _ => []
+          let receipt := ((strField? auth "receipt").bind Py.fromHex).getD []
+          let proof := match Json.lookup auth "receipt_merkle_proof" with
+            | some (.arr ns) => ns.map fun n => (match n with | .str s => (Py.fromHex s).getD [] | _ => [])
+            | _ => []
+          let segwit := (Json.lookup msgObj "sighashComputationMode").map (·.pyEqStr "segwit") == some true
+          let args : Dongle.SignAuthArgs := {
+            path := path, receipt := receipt, proof := proof, btcTx := utx,
+            input := (match Json.lookup msgObj "input" with | some (.int n) => n | _ => 0),
+            segwit := segwit,
+            witnessScript := ((strField? msgObj "witnessScript").bind Py.fromHex).getD [],
+            outpoint := (match Json.lookup msgObj "outpointValue" with | some (.int n) => n | _ => 0) }
+          signGuard c (do ensureConnection; Dongle.signAuthorized args)
+            (signReply translateSign translateSignDefault)
+
+theorem signV5_eq_body (c : Codes) (req : List (String × Json)) (path : List Nat) :
+    signV5 c req path = signV5body c req path (msgObjOf req) := by
+  unfold signV5 signV5body msgObjOf
+  cases Json.lookup req "message" with
+  | none => rfl
+  | some v => cases v <;> rfl
+
+/-- the model of the manager answers a refused `sign` with that code and without any event -/
+theorem sign_refusal_observed (hs : Dongle.Hashes) (kvs : List (String × Json)) (w : World) (e : Int)
+    (hg : gate (codes .v5) kvs = .ok "sign") (h : signV5Verdict kvs = some e) :
+    (handleRequest .v5 hs (.obj kvs) w).val = .ok (errReply e) ∧ (handleRequest .v5 hs (.obj kvs) w).evs = [] ∧
+    (handleRequest .v5 hs (.obj kvs) w).w = w := by
+  have hneg := (sign_refusal_allowed kvs e h).1
+  unfold signV5Verdict at h
+  simp only at h
+  cases hv : validateSign .v5 kvs with
+  | error e' =>
+    rw [hv] at h
+    injection h with h
+    subst h
+    have hvc : validateCmd .v5 "sign" kvs = .error e' := by simp [validateCmd, hv]
+    simp only [handleRequest, hg, hvc]
+    exact ⟨rfl, rfl, rfl⟩
+  | ok path =>
+    rw [hv] at h
+    have hvc : validateCmd .v5 "sign" kvs = .ok path := by simp [validateCmd, hv]
+    have hop : operate .v5 hs "sign" kvs path = signV5 (codes .v5) kvs path := by simp [operate]
+    have hfin : finish (e, []) = errReply e := by simp [finish, hneg]
+    have key : signV5 (codes .v5) kvs path w = ⟨.ok (e, []), [], w⟩ := by
+      rw [signV5_eq_body]
+      unfold signV5body
+      simp only at h ⊢
+      split at h
+      · rename_i hyes
+        rw [if_pos hyes]
+        split at h
+        · rename_i hm
+          injection h with h
+          rw [if_pos hm, h]; rfl
+        · cases h
+      · rename_i hno
+        rw [if_neg hno]
+        split at h
+        · rename_i ha
+          injection h with h
+          rw [if_pos ha, h]; rfl
+        · rename_i ha
+          rw [if_neg ha]
+          split at h
+          · rename_i hm
+            injection h with h
+            rw [if_pos hm, h]; rfl
+          · rename_i hm
+            rw [if_neg hm]
+            have hu : utxOf kvs = ((strField? (msgObjOf kvs) "tx").bind Py.fromHex).bind Btc.getUnsignedTx := rfl
+            cases hx : utxOf kvs with
+            | some u => rw [hx] at h; cases h
+            | none =>
+              rw [hx] at h
+              injection h with h
+              rw [hu] at hx
+              simp only [hx, h]; rfl
+    simp only [handleRequest, hg, hvc, hop]
+    rw [M.bind_ok key]
+    simp only [hfin]
+    exact ⟨rfl, rfl, rfl⟩
 
 end Classify
 end PowHsm
